@@ -1253,6 +1253,15 @@ impl Server {
         false
     }
 
+    /// The connection still carries state of the client that used it last: an open or failed
+    /// transaction, COPY mode, unread response data, or session changes that were not reset.
+    pub fn has_leftover_state(&self) -> bool {
+        self.in_transaction
+            || self.in_copy_mode
+            || self.data_available
+            || (self.cleanup_state.needs_cleanup() && self.cleanup_connections)
+    }
+
     /// Get server startup information to forward it to the client.
     pub fn server_parameters(&self) -> ServerParameters {
         self.server_parameters.clone()
